@@ -113,7 +113,15 @@ def _structure_returns(block: List[ast.stmt]) -> Optional[List[ast.stmt]]:
                 new.body, new.orelse = (tb, ob) if body_t else (ob or [ast.copy_location(ast.Pass(), st)], tb)
                 out.append(new)
                 return out
-            return None                     # a return in a branch that may also fall through
+            # a return in a branch that may also fall through: give each branch its own copy of what follows (bounded duplication)
+            if len(rest) <= 8:
+                tb = _structure_returns(list(st.body) + [copy.deepcopy(x) for x in rest])
+                ob = _structure_returns(list(st.orelse) + [copy.deepcopy(x) for x in rest])
+                if tb is not None and ob is not None:
+                    new.body, new.orelse = tb or [ast.copy_location(ast.Pass(), st)], ob
+                    out.append(new)
+                    return out
+            return None
         if isinstance(st, ast.Try) and not st.finalbody and not rest:
             new = copy.copy(st)
             b = _structure_returns(st.body)
@@ -274,8 +282,11 @@ class Inliner:
                 for s in cd.body:
                     if isinstance(s, (ast.FunctionDef, ast.AsyncFunctionDef)) and s.name == call_func.attr:
                         q = f"{clsq}.{s.name}"
+                        decos = {(d.id if isinstance(d, ast.Name) else getattr(d, "attr", "")) for d in s.decorator_list}
+                        if decos - {"staticmethod"}:
+                            return None          # classmethod / property / wrapped: not a plain call of the body
                         if q not in self.known:
-                            return q, s, True
+                            return q, s, "staticmethod" not in decos
         if isinstance(call_func, ast.Name) and call_func.id in self.closures:
             return f"<closure>.{call_func.id}", self.closures[call_func.id], False
         if isinstance(call_func, ast.Name) and call_func.id in mod_funcs:
